@@ -5,6 +5,7 @@ package yqlib
 import (
 	"bytes"
 	"io"
+	"strings"
 
 	"github.com/goccy/go-json"
 )
@@ -17,8 +18,9 @@ type jsonEncoder struct {
 func NewJSONEncoder(prefs JsonPreferences) Encoder {
 	var indentString = ""
 
-	for index := 0; index < prefs.Indent; index++ {
-		indentString = indentString + " "
+	if prefs.Indent > 0 {
+		// (built in one go: appending one space at a time copies the string each time)
+		indentString = strings.Repeat(" ", prefs.Indent)
 	}
 
 	return &jsonEncoder{prefs, indentString}
